@@ -148,6 +148,15 @@ def rule2_arith(ctx, v):
         rem = a.get(a.strip(sn[0].ops[0]))
         okr = rem is not None and rem.op in ('srem', 'urem') and const_int(rem.ops[1]) == NS
         S = rem.ops[0] if okr else None
+        if not okr:
+            # the other spelling of the remainder: S - (S / 10^9) * 10^9 with the same S
+            na = affine(a, sn[0].ops[0])
+            dv = [k for k in na if k in a.insts and a.insts[k].op in ('sdiv', 'udiv') and const_int(a.insts[k].ops[1]) == NS]
+            if len(dv) == 1 and na[dv[0]] == -NS:
+                rest = {k: c for k, c in na.items() if k != dv[0] and c != 0}
+                sd = {k: c for k, c in affine(a, a.insts[dv[0]].ops[0]).items() if c != 0}
+                if rest == sd:
+                    okr, S = True, a.insts[dv[0]].ops[0]
         okS = False
         if S is not None:
             sa = affine(a, S)
